@@ -25,6 +25,7 @@ EPOCH = datetime(2024, 3, 1, 12, 0, 0)  # virtual t=0 (a non-DST, non-leap-day i
 class _State:
     loop: "VLoop | None" = None
     strict_us: int = 0  # strictly increasing microsecond counter (see VDTStrict)
+    frozen: "datetime | None" = None  # when set, VDT.now() returns this instant (loop timers still run)
 
 
 STATE = _State()
@@ -85,7 +86,7 @@ class VDT(datetime):
         lp = STATE.loop
         if lp is None:
             return datetime.now(tz)
-        d = EPOCH + timedelta(seconds=lp.time())
+        d = STATE.frozen or (EPOCH + timedelta(seconds=lp.time()))
         return cls(d.year, d.month, d.day, d.hour, d.minute, d.second, d.microsecond)
 
 
@@ -179,6 +180,7 @@ def reset_library_globals() -> None:
         pass
     tr._global_sync_cycles.clear()
     STATE.strict_us = 0
+    STATE.frozen = None
 
 
 def run(coro_fn, *args, start: float = 0.0, reset: bool = True, **kwargs):  # type: ignore[no-untyped-def]
